@@ -4,6 +4,7 @@ import (
 	"bytes"
 	"errors"
 	"fmt"
+	"math"
 	"strconv"
 	"strings"
 
@@ -13,7 +14,8 @@ import (
 )
 
 var (
-	errInvalidRange = errors.New("Invalid range string")
+	errInvalidRange       = errors.New("Invalid range string")
+	errScoreNotValidFloat = errors.New("ERR value is not a valid float")
 )
 
 func getScoreRange(left []byte, right []byte) (float64, float64, error) {
@@ -489,6 +491,10 @@ func getScorePairs(args [][]byte) ([]common.ScorePair, error) {
 		s, err := strconv.ParseFloat(string(args[i]), 64)
 		if err != nil {
 			return nil, err
+		}
+		if math.IsNaN(s) {
+			// ParseFloat accepts "nan"; a NaN score can not be ordered in the score index
+			return nil, errScoreNotValidFloat
 		}
 		mlist = append(mlist, common.ScorePair{Score: s, Member: args[i+1]})
 	}
